@@ -71,7 +71,7 @@ func c05Check(cfg RouterCfg, hist []Op, r *Router, t *ref.Table, c *explore.Chil
 					pr.Path = pr.Path[:20] + fmt.Sprintf("...(%d bytes)", len(q.Path))
 				}
 				c.Viols = append(c.Viols, explore.Violation{Property: "C05", Clause: "C05.request-no-panic", Class: "panic:" + shortPanic(o.Panic), Config: cfg.String(), History: hs, Probe: pr.String(),
-					Observed: fmt.Sprintf("panic: %v", o.Panic), Expected: "no panic", Replay: mustJSON(histReplay{Kind: "dispatch", Router: cfg, Ops: hist, Req: q})})
+					Observed: fmt.Sprintf("panic: %v", o.Panic), Expected: "no panic"})
 			}
 		}
 	}
@@ -145,7 +145,7 @@ func c05GroupJob(raw json.RawMessage) (any, error) {
 							qq.Header = map[string]string{"Accept": acc[:10] + "..."}
 						}
 						out.Viols = append(out.Viols, explore.Violation{Property: "C05", Clause: "C05.group-no-panic", Class: "panic:" + mnames[k] + ":" + shortPanic(o.Panic), Config: "group with one router behind matcher " + mnames[k], Probe: qq.String(),
-							Observed: fmt.Sprintf("panic: %v", o.Panic), Expected: "no panic", Replay: mustJSON(c05Replay{Kind: "group", K: k, Req: q})})
+							Observed: fmt.Sprintf("panic: %v", o.Panic), Expected: "no panic", Replay: explore.ItemReplay("c05/group", it)})
 					}
 				}
 			}
@@ -157,8 +157,7 @@ func c05GroupJob(raw json.RawMessage) (any, error) {
 			ctx := types.NewContext()
 			req := hv.NewRequest(hv.Req{Method: "GET", Path: "/v1/x", Host: h, Header: map[string]string{"Accept": "a/b;version=1"}}, &hv.Obs{})
 			if v, bad := Guard(func() { m.Match(req, ctx) }); bad {
-				out.Viols = append(out.Viols, explore.Violation{Property: "C05", Clause: "C05.matcher-no-panic", Class: "panic:" + mnames[mi], Probe: fmt.Sprintf("%s.Match(Host=%q)", mnames[mi], h), Observed: fmt.Sprintf("panic: %v", v), Expected: "no panic",
-					Replay: mustJSON(c05Replay{Kind: "match", K: mi, Req: hv.Req{Host: h}})})
+				out.Viols = append(out.Viols, explore.Violation{Property: "C05", Clause: "C05.matcher-no-panic", Class: "panic:" + mnames[mi], Probe: fmt.Sprintf("%s.Match(Host=%q)", mnames[mi], h), Observed: fmt.Sprintf("panic: %v", v), Expected: "no panic", Replay: explore.ItemReplay("c05/group", it)})
 			}
 			ctx.Destroy()
 			out.Evals++
@@ -170,14 +169,6 @@ func c05GroupJob(raw json.RawMessage) (any, error) {
 	return out, nil
 }
 
-type c05Replay struct {
-	Kind    string `json:"kind"`
-	K       int    `json:"k"`
-	Req     hv.Req `json:"req"`
-	Pattern string `json:"pattern"`
-	Step    string `json:"step"`
-}
-
 // ---- (b) pattern strings ----
 
 var patternBytes = []byte{'/', 'a', 'b', '{', '}', ':', '-', '\\', 'd', '+', '(', '*'}
@@ -185,7 +176,11 @@ var patternBytes = []byte{'/', 'a', 'b', '{', '}', ':', '-', '\\', 'd', '+', '('
 type c05PatItem struct {
 	Prefix string `json:"prefix"`
 	Extra  int    `json:"extra"`
+	Rules  bool   `json:"rules,omitempty"` // enumerate rule texts: Prefix+Σrule^≤Extra wrapped in parameter tokens
 }
+
+// rule alphabet: everything that lets a rule escape its group or fail to compile
+var ruleBytes = []byte{'a', 'b', '(', ')', '|', '\\', 'd', '+', '*', '[', ']', '?', '^', '$'}
 
 // patternTrial runs every entry point on one pattern string. It returns the
 // first failing step.
@@ -219,7 +214,7 @@ func patternTrial(p string) (step, class, obs, exp string, outcome string) {
 		if synErr != nil {
 			return "Handle(fresh)", "handle-accepts-checksyntax-rejects", "registered", fmt.Sprintf("panic with an error (CheckSyntax: %v)", synErr), outcome
 		}
-		for _, path := range []string{p, "/", "", "/a", "/a/b", p + "/"} {
+		for _, path := range []string{p, "/", "", "/a", "/a/b", p + "/", "/b", "/ab", "/aa", "/b/b", "/1"} {
 			for _, m := range []string{"GET", "BOGUS"} {
 				if o := hv.Serve(r, hv.Req{Method: m, Path: path}); o.Paniced {
 					return "Serve(after Handle) " + m + " " + fmt.Sprintf("%q", path), "serve-panic-after-handle", fmt.Sprintf("panic: %v", o.Panic), "no panic", outcome
@@ -252,13 +247,26 @@ func c05PatJob(raw json.RawMessage) (any, error) {
 	json.Unmarshal(raw, &it)
 	out := &simpleOut{}
 	outc := map[string]struct{}{}
-	explore.Strings(patternBytes, it.Prefix, it.Extra, func(p string) {
+	enum := func(f func(string)) { explore.Strings(patternBytes, it.Prefix, it.Extra, f) }
+	if it.Rules {
+		enum = func(f func(string)) {
+			explore.Strings(ruleBytes, it.Prefix, it.Extra, func(rule string) {
+				for _, pat := range []string{"/{a:" + rule + "}", "/{a:" + rule + "}/b", "/{-a:" + rule + "}b", "/a/{a:" + rule + "}"} {
+					f(pat)
+				}
+			})
+		}
+	}
+	if it.Rules && it.Extra == 0 && strings.HasPrefix(it.Prefix, "/") { // replay of one pattern
+		enum = func(f func(string)) { f(it.Prefix) }
+	}
+	enum(func(p string) {
 		out.Evals++
 		step, class, obs, exp, outcome := patternTrial(p)
 		outc[outcome] = struct{}{}
 		if class != "" {
 			out.Viols = append(out.Viols, explore.Violation{Property: "C05", Clause: "C05.pattern", Class: class, Probe: fmt.Sprintf("pattern %q: %s", p, step), Observed: obs, Expected: exp,
-				Replay: mustJSON(c05Replay{Kind: "pattern", Pattern: p})})
+				Replay: explore.ItemReplay("c05/patterns", c05PatItem{Prefix: p, Extra: 0, Rules: strings.HasPrefix(p, "/") && it.Rules})})
 			out.Viols = smallestPerSig(out.Viols)
 		}
 	})
@@ -267,35 +275,13 @@ func c05PatJob(raw json.RawMessage) (any, error) {
 	return out, nil
 }
 
-func replayC05(raw json.RawMessage) (string, error) {
-	var h c05Replay
-	if err := json.Unmarshal(raw, &h); err != nil {
-		return "", err
-	}
-	switch h.Kind {
-	case "pattern":
-		_, _, obs, _, _ := patternTrial(h.Pattern)
-		if obs == "" {
-			obs = "no failure"
-		}
-		return obs, nil
-	case "group", "match":
-		res, _ := c05GroupJob(mustJSON(c05GroupItem{Kind: h.K}))
-		for _, v := range res.(*simpleOut).Viols {
-			return v.Observed, nil
-		}
-		return "no panic", nil
-	}
-	return replayHist(raw)
-}
-
 var _ http.Handler
 
 func init() {
 	c05Spec.register("c05/expand")
 	explore.RegisterJob("c05/group", c05GroupJob)
 	explore.RegisterJob("c05/patterns", c05PatJob)
-	explore.Register(&explore.Check{ID: "C05", Replay: replayC05, Run: func(rc *explore.RunCtx) {
+	explore.Register(&explore.Check{ID: "C05", Run: func(rc *explore.RunCtx) {
 		depth, plen := 3, 6
 		if !rc.Quick() {
 			depth, plen = 4, 7
@@ -305,7 +291,7 @@ func init() {
 		rc.Assume = append(rc.Assume,
 			"(a) every state of the C03 history search up to the depth bound is probed with 6 method strings (incl. empty and unknown) x hostile paths: '', '*', all strings over {/ a { } : * 0x00 0x80 0xff} up to length 2-3, witnesses and their edit-1 neighbours, 32767/32768/65536-byte paths",
 			"(a') groups with one router behind each matcher kind (Hosts, path version, header version, And, Or, nil) x hostile Host strings (all strings over {a . : [ ] * { 0xff} up to length 3 and a fixed list) x paths x Accept values; matchers also called directly",
-			"(b) every pattern string over {/ a b { } : - \\ d + ( *} up to the length bound through CheckSyntax, mux.URL, Router.URL (strict and not), Handle on a fresh and on a populated router, then served",
+			"(b) every pattern string over {/ a b { } : - \\ d + ( *} up to the length bound, and every rule text over {a b ( ) | \\ d + * [ ] ? ^ $} up to the rule bound wrapped as /{a:R}, /{a:R}/b, /{-a:R}b, /a/{a:R}, through CheckSyntax, mux.URL, Router.URL (strict and not), Handle on a fresh and on a populated router, then served",
 			"a harness handler never panics on its own; a nil handler given to the CallFunc counts as a router fault")
 		for _, cfg := range []RouterCfg{{}, {Trace: true}} {
 			explore.BFS(rc, "c05/expand", histCfg{Router: cfg}, depth, true, "C05 "+cfg.String())
@@ -320,6 +306,17 @@ func init() {
 		for _, a := range patternBytes {
 			for _, b := range patternBytes {
 				pi = append(pi, c05PatItem{Prefix: string([]byte{a, b}), Extra: plen - 2})
+			}
+		}
+		rlen := 5
+		if !rc.Quick() {
+			rlen = 6
+		}
+		rc.Set("rule_max_len", rlen)
+		pi = append(pi, c05PatItem{Prefix: "", Extra: 1, Rules: true})
+		for _, a := range ruleBytes {
+			for _, b := range ruleBytes {
+				pi = append(pi, c05PatItem{Prefix: string([]byte{a, b}), Extra: rlen - 2, Rules: true})
 			}
 		}
 		explore.ParMap(rc, "c05/patterns", pi, func(i int, in c05PatItem, o simpleOut) { mergeSimple(rc, o, "pattern_strings") })
